@@ -135,7 +135,7 @@ impl<'a> Tr<'a> {
             comps.push(v.s);
         }
         let s = pack(&comps);
-        Ok(if self.fuel { format!("(Some {})", s) } else { s })
+        Ok(if self.partial { format!("(Some {})", s) } else { s })
     }
 
     /// read `base.path`
@@ -263,7 +263,26 @@ impl<'a> Tr<'a> {
     pub fn hoist_k(&mut self, e: &Expr, env: &Env, hint: Option<&Ty>, k: K) -> R<String> {
         if let Expr::Binary(b) = e {
             if matches!(b.op, BinOp::And(_) | BinOp::Or(_)) && (self.effects_expr(&b.right).ret || !self.effects_expr(&b.right).assigned.is_empty()) {
-                return Err(unsupported(e, "effect in the right operand of `&&` / `||`"));
+                if !self.effects_expr(&b.right).assigned.is_empty() {
+                    return Err(unsupported(e, "assignment in the right operand of `&&` / `||`"));
+                }
+                // short circuit: the right operand (which can exit / panic) is evaluated only when needed; the continuation
+                // is emitted in both branches
+                let is_and = matches!(b.op, BinOp::And(_));
+                let right = (*b.right).clone();
+                return self.expr_k(&b.left, env, Some(&Ty::Bool), &|tr, va| {
+                    join(&va.ty, &Ty::Bool).map_err(|m| unsupported(e, &m))?;
+                    let evald = tr.expr_k(&right, env, Some(&Ty::Bool), &|tr2, vb| {
+                        join(&vb.ty, &Ty::Bool).map_err(|m| unsupported(e, &m))?;
+                        k(tr2, vb)
+                    })?;
+                    let short = k(tr, Val { s: (if is_and { "false" } else { "true" }).to_string(), ty: Ty::Bool })?;
+                    if is_and {
+                        Ok(format!("if {} then\n{}\nelse\n{}", va.s, evald, short))
+                    } else {
+                        Ok(format!("if {} then\n{}\nelse\n{}", va.s, short, evald))
+                    }
+                });
             }
         }
         let cs = children(e);
@@ -311,8 +330,35 @@ impl<'a> Tr<'a> {
                 return Ok(s);
             }
         }
+        if let Expr::Index(ix) = e {
+            if !matches!(crate::expr::strip_parens(&ix.index), Expr::Range(_)) {
+                if let Ok(Ty::Slice(_)) = self.pure(&ix.expr, env, None).map(|b| b.ty) {
+                    return self.index_k(ix, env, e, k);
+                }
+            }
+        }
         let v = self.pure(e, env, hint)?;
         k(self, v)
+    }
+
+    /// `list[i]`: Rust panics out of range; the function is partial (None)
+    fn index_k(&mut self, ix: &ExprIndex, env: &Env, at: &Expr, k: K) -> R<String> {
+        if !self.partial {
+            self.needs_partial = true;
+            return Err(unsupported(at, "slice index (panics out of range: retry as a partial function)"));
+        }
+        self.panic_sites.insert("slice index".to_string());
+        let b = self.pure(&ix.expr, env, None)?;
+        let elem = match &b.ty {
+            Ty::Slice(t) => (**t).clone(),
+            _ => unreachable!(),
+        };
+        let us = Ty::int(IntTy::Usize);
+        let i = self.pure(&ix.index, env, Some(&us))?;
+        join(&i.ty, &us).map_err(|m| unsupported(at, &m))?;
+        let x = self.fresh("el");
+        let rest = k(self, Val { s: x.clone(), ty: elem })?;
+        Ok(format!("match (Casts.slice_get {} {}) with\n| Some {} =>\n{}\n| None => None\nend", b.s, i.s, x, rest))
     }
 
     /// the receiver of this method call must stay a place (a `&mut self` callee or a built-in mutating method); every other
@@ -372,6 +418,10 @@ impl<'a> Tr<'a> {
                     let local_def = self.t.file_defs.get(&self.cur_file).map(|d| d.fns.contains(&segs[0])).unwrap_or(false);
                     let fs: Vec<FnInfo> = self.find_fns(None, &segs[0]).into_iter().filter(|f| !local_def || f.file == self.cur_file).collect();
                     return Ok(if fs.len() == 1 { Some((fs[0].clone(), None)) } else { None });
+                }
+                if let Some((f, vals)) = self.trait_static_target(&p.path, env, e)? {
+                    *self.assoc_override.borrow_mut() = Some((f.key.clone(), vals));
+                    return Ok(Some((f, None)));
                 }
                 if segs.len() == 2 || segs.len() == 3 {
                     let tn = if segs.len() == 3 && self.t.adts.contains_key(&format!("{}.{}", segs[0], segs[1])) { format!("{}.{}", segs[0], segs[1]) } else { self.resolve_type_name(&segs[segs.len() - 2]) };
@@ -516,6 +566,9 @@ impl<'a> Tr<'a> {
                         tr.needs_fuel = true;
                         return Err(unsupported(e, "`fold` over an iterator (retry with fuel)"));
                     }
+                    if f.partial {
+                        return Err(unsupported(e, "a driver over an `Iterator::next` that can panic"));
+                    }
                     let init = tr.pure(&init_e, env, None)?;
                     // the closure: a pure function of (accumulator, item)
                     let mut env2 = env.clone();
@@ -631,12 +684,22 @@ impl<'a> Tr<'a> {
             Some(x) => x,
             None => return Ok(None),
         };
-        if !(f.fuel || f.has_mut_params() || f.self_kind == SelfKind::Mut) {
+        if !(f.opt() || f.has_mut_params() || f.self_kind == SelfKind::Mut) {
             return Ok(None);
         }
         if f.fuel && !self.fuel {
             self.needs_fuel = true;
             return Err(unsupported(e, &format!("call of the fuelled function `{}` (retry with fuel)", f.key)));
+        }
+        if f.partial && !self.partial {
+            self.needs_partial = true;
+            return Err(unsupported(e, &format!("call of `{}`, which can panic (retry as a partial function)", f.key)));
+        }
+        if !f.panic_sites.is_empty() {
+            self.panic_sites.insert(format!("call of {}", f.coq));
+        }
+        if f.usize_w {
+            self.usize_w.set(true);
         }
         let inherited = self.inherited_assoc(&f, env);
         if (!f.assoc_params.is_empty() && inherited.is_none()) || !f.const_generics.is_empty() {
@@ -708,7 +771,7 @@ impl<'a> Tr<'a> {
         let rtys = f.result_tys();
         let temps: Vec<String> = rtys.iter().map(|_| self.fresh("t")).collect();
         let ret_val = if f.ret != Ty::Unit { Val { s: temps.last().unwrap().clone(), ty: f.ret.clone() } } else { unit() };
-        if !f.fuel && temps.len() == 1 && writebacks.len() == 1 && writebacks[0].1.is_empty() {
+        if !f.opt() && temps.len() == 1 && writebacks.len() == 1 && writebacks[0].1.is_empty() {
             // `x.m(..)` / `f(&mut x)` with nothing else returned: rebind x directly
             if let Some(v) = env.get(&writebacks[0].0) {
                 if v.alias.is_none() {
@@ -724,7 +787,7 @@ impl<'a> Tr<'a> {
             }
             rest = self.write_place(root, path, env, tmp, &rest, e)?;
         }
-        if f.fuel {
+        if f.opt() {
             let pat = match temps.len() {
                 0 => "_".to_string(),
                 _ => pack(&temps),
